@@ -172,6 +172,9 @@ func (t *Collection) ExistAny(key interface{}) bool {
 // Exist returns true if the key exists in the collection
 func (t *Collection) Exist(key []byte) bool {
 	val, _ := t.GetItem(key, false)
+	if val != nil {
+		t.store.ItemDecRef(t, val) // Release the reference GetItem took for us.
+	}
 	return val != nil
 }
 
@@ -480,6 +483,7 @@ func (t *Collection) VisitItemsRandom(
 	if err != nil {
 		return err
 	}
+	defer t.store.ItemDecRef(t, si)
 	err = t.VisitItemsAscendEx(si.Key, false, v)
 	if err != nil {
 		return err
@@ -552,6 +556,7 @@ func (t *Collection) VisitItemsAscendBlockEx(
 	if err != nil {
 		return err
 	}
+	defer t.store.ItemDecRef(t, si)
 	err = t.VisitItemsAscendEx(si.Key, false, v)
 	if err != nil {
 		return err
@@ -622,6 +627,7 @@ func (t *Collection) Len() (l int64, err error) {
 	if si == nil {
 		return 0, nil // Empty collection.
 	}
+	defer t.store.ItemDecRef(t, si)
 	err = t.VisitItemsAscendEx(si.Key, false, visitor)
 	return
 }
